@@ -123,9 +123,13 @@ pub fn inline_all(m: &Model, method_types: &[&str]) -> std::collections::BTreeMa
 /// *unconditional* top-level statement of the header block of generate_module, before the first
 /// statement that renders anything. `field` is the backend field (e.g. "extensibility_environment").
 pub fn reset_rule(m: &Model, ctx: &mut Ctx, rule: &str, field: &str) {
-    let gms: Vec<&FnInfo> = m.fns.iter().filter(|f| f.name == "generate_module" && f.self_ty.as_deref() == Some("Rasn")).collect();
+    reset_rule_for(m, ctx, rule, field, "Rasn")
+}
+
+pub fn reset_rule_for(m: &Model, ctx: &mut Ctx, rule: &str, field: &str, backend: &str) {
+    let gms: Vec<&FnInfo> = m.fns.iter().filter(|f| f.name == "generate_module" && f.self_ty.as_deref() == Some(backend)).collect();
     let Some(f) = gms.first() else {
-        ctx.fail_closed(rule, "anchor not found: Rasn::generate_module");
+        ctx.fail_closed(rule, &format!("anchor not found: {}::generate_module", backend));
         return;
     };
     ctx.func(&f.key);
@@ -151,7 +155,7 @@ pub fn reset_rule(m: &Model, ctx: &mut Ctx, rule: &str, field: &str) {
         if t == want && assign_at.is_none() {
             assign_at = Some(i);
         }
-        let uses = t.contains("self.generate_tld(") || t.contains("self.to_rust_") || t.contains("self.generate(");
+        let uses = t.contains("self.generate_tld(") || t.contains("self.to_rust_") || t.contains("self.generate(") || t.contains("to_jer_identifier(");
         if uses && first_use.is_none() {
             first_use = Some(i);
         }
